@@ -184,3 +184,16 @@ Theorem C08_tie_cond_wait_cancelled_entry_noeffect : forall (s : EventCond.cst) 
             (l, CondImp.vis s c, CondImp.OCancelled).
 Proof. exact CondGenEq.cond_wait_cancelled_entry_noeffect. Qed.
 Print Assumptions C08_tie_cond_wait_cancelled_entry_noeffect.
+
+(* rows 10-13: memory stream send() / receive() called from an effectively cancelled scope raise the cancellation at
+   their first statement - a FULL checkpoint - with nothing changed (segments regenerated by tools/translate_mem.py,
+   tie T of C12/C13; MemGenEq.ex_effect_before_checkpoint_is_visible shows that an effect in front of it would show) *)
+From AV Require MemImp MemGen MemGenEq.
+
+Theorem C08_tie_mem_cancelled_entry_noeffect : forall (s : MemStream.st) (h : MemStream.hid) (t : tid) (x : MemStream.item),
+  (exists l, MemImp.exec MemGen.snd_send_entry t (MemImp.loc_cancelled (Some x)) (MemImp.vis s h) =
+             (l, MemImp.vis s h, MemImp.OCancelled)) /\
+  (exists l, MemImp.exec MemGen.rcv_receive_entry t (MemImp.loc_cancelled None) (MemImp.vis s h) =
+             (l, MemImp.vis s h, MemImp.OCancelled)).
+Proof. exact MemGenEq.cancelled_entry_noeffect. Qed.
+Print Assumptions C08_tie_mem_cancelled_entry_noeffect.
